@@ -528,8 +528,10 @@ func (r *resolver) applyDeviation(y *Module, d *Deviation) error {
 				hasDflt.addDefault(deflt)
 			}
 		}
-		for _, unique := range d.Add.unique {
-			target.(*List).unique = append(target.(*List).unique, unique)
+		if len(d.Add.unique) > 0 {
+			// the copies a grouping's list got by its uses share the slice: add to one of its own
+			list := target.(*List)
+			list.unique = append(append([][]string{}, list.unique...), d.Add.unique...)
 		}
 	}
 	if d.Replace != nil {
